@@ -22,6 +22,8 @@ def _outcome(call):
         if msg.startswith("No method"):
             return "NOM"
         return "EXC:" + msg[:40]
+    except Exception as e:   # any other failure of the dispatcher itself (not CrossHair's control-flow exceptions: BaseException)
+        return "EXC:" + type(e).__name__
     return LOG[0] if len(LOG) == 1 else ("LOG", tuple(LOG))
 
 
